@@ -53,7 +53,7 @@ meta("C05",
 meta("C08",
      rule="G3 histories in which ~55% of the steps are calls the text model / grammar marks as failing (duplicate or clashing identifiers for every pair of record types, renames to identifiers in use, version conflicts, malformed lines, conflicting header values, edits of reference fields of connected lines, rm of unknown ids) interleaved with successful steps; full public observation compared before/after each raising call; non-trivial = history with >=1 raising call on a non-empty Gfa Probe steps: calls for which the text model has no verdict (identifiers mentioned in roles their carriers cannot play, lines taking the place of placeholders) are executed and, when they raise, must leave the observation unchanged; unknown-version scenarios include TS conflicts on VN headers. Level-0 unknown-version scenarios; header.add() call sequences with conflicting datatypes/values; group lines which define a tag of the group differently; the observation includes n_input_header_lines and the header values as returned by the API. Positional fields re-assigned on hand-built lines before add_line; header line objects of a lower level; the header VN given through attribute/set/add on a Gfa of unknown version holding lines kept aside.",
      budget={"quick": 25, "thorough": 400},
-     min_counts={"quick": {"header_add_calls": 300, "header_line_objects_offered": 40, "header_adds_on_unknown_version": 25, "foreign_line_objects_offered": 60, "probe_calls_failed": 400, "failing_calls": 1500}},
+     min_counts={"quick": {"header_add_calls": 300, "header_line_objects_offered": 40, "header_adds_on_unknown_version": 25, "journal_refusals": 120, "foreign_line_objects_offered": 60, "probe_calls_failed": 400, "failing_calls": 1500}},
      set_samples=["failure_classes"])
 meta("C09",
      rule="G3 histories with ~45% identifier clashes (additions and renames of every identified record type to identifiers in use by the same or another type) and legal renames; unique_names walker after every outermost mutation; model comparison after renames; non-trivial = history with a cross-type clash or a rename After every successful step a lookup oracle compares names/line()/segment() with the model (each identifier listed once and found as the real line that writes the model's record; freed identifiers not found), placeholders must exist exactly for mentioned-undefined identifiers, and line objects obtained earlier which claim to be connected must be the registered ones; L/C identifier tags are set, renamed and deleted; renames onto placeholders and to '*'. Probe calls (refused after they began to create references) with the placeholder oracle after every refused call. Registry coherence (every identifier a line carries is in names and is looked up to that line) at the end of every history and after a conversion of the Gfa.",
@@ -72,14 +72,14 @@ meta("C04",
 meta("C07",
      rule="G4 hostile text (empty/blank lines, every record letter with 0..10 fields from a pool of boundary atoms, printable/non-printable/non-ASCII garbage, very long fields, deep JSON) and single-point mutants of generated valid lines/documents, x vlevel 0-3 x version {None,gfa1,gfa2} x dialect, through Line(), Gfa(str|list), from_file, add_line; then follow-up public calls (line/segment/try_get_*/rm/validate/str, get/set/validate_field/field_to_s/delete/set_datatype) with hostile names and values; bin/gfapy-validate on generated files; every call runs under a logical step budget (5e6 + 5000*bytes function entries + loop back-edges inside gfapy/); non-trivial = case that reached a raise site not seen before in its shard Plus API-call histories (additions, removals, renames, tag and field edits incl. fragment external, probes) run through the client classifier; every field name of every record type is offered to set(); line instances are removed. Systematic stratum first: every field of every record type (64 slots) replaced by each of 36 atoms, levels 0/1/3, then a deterministic sweep (names, writers, validations, every field read, group resolution, removal of every line). One file in five of the file entry point carries bytes which are not UTF-8 text; line objects of valid documents with one field re-assigned (the field of another line, a shorter or longer list) are added to the Gfa of the other lines; the public parsers of field values (LastPos, Alignment, ByteArray, NumericArray.from_string, posvalue, SegmentEnd, OrientedLine, invert) get the hostile atoms; ID tags of every datatype among the systematic atoms.",
      budget={"quick": 35, "thorough": 500},
-     min_counts={"quick": {"systematic_documents": 2500, "systematic_slots": 60, "files_with_undecodable_bytes": 100, "edited_lines_added": 300, "value_parser_calls": 30000, "deep_nesting_documents": 3, "histories": 200, "public_calls": 30000, "gfapy_errors": 5000, "cli_runs": 20}},
+     min_counts={"quick": {"systematic_documents": 2500, "systematic_slots": 60, "files_with_undecodable_bytes": 100, "edited_lines_added": 300, "value_parser_calls": 30000, "files_read_with_progress_logging": 200, "deep_nesting_documents": 3, "histories": 200, "public_calls": 30000, "gfapy_errors": 5000, "cli_runs": 20}},
      assumptions=["missing or unreadable files are environment faults outside the claim (files whose bytes are not UTF-8 text are inside it since the eighth round)",
                   "termination is restated as bounded progress: no call may exceed the deterministic step budget; a wall-clock watchdog firing is inconclusive"])
 
 meta("C03",
      rule="valid GFA1/GFA2 documents of 3..5 (quick) / 3..7 (thorough) lines with every record family: ALL n! arrival orders are executed and the full public observation (version, written records, namespace, per-line reference targets, per-collection back-references, path link direction flags) must be identical across orders, equal the model's neighbourhoods, and contain no placeholder for a defined identifier; larger documents (<=14 lines) with sampled orders; non-trivial = document with >=1 referencing record and >1 order; distinct = distinct documents 25% of the all-orders documents carry a twin record (two records written identically: C without ID, F, '*'-named E/G/O/U); reference targets are marked when they are placeholders or not the registered object. Sets defined on several U lines and paths on two O lines (tags of every datatype, distinct names) in sampled arrival orders, compared with the group the lines define; GFA1 documents in which paths state different overlaps over a link with unspecified overlap.",
      budget={"quick": 30, "thorough": 500},
-     min_counts={"quick": {"documents_with_twin_records": 30, "multiline_group_orders": 1000, "incremental_builds": 3000, "documents_at_level_0": 100, "documents_path-link-overlaps": 60, "permutations": 20000, "documents_all_orders": 100}},
+     min_counts={"quick": {"documents_with_twin_records": 30, "multiline_group_orders": 1000, "incremental_builds": 3000, "multiline_backreferences_checked": 10000, "documents_at_level_0": 100, "documents_path-link-overlaps": 60, "permutations": 20000, "documents_all_orders": 100}},
      exhaustive=None)
 meta("C13",
      rule="documents assembled from pools of GFA1-only, GFA2-only and version-neutral lines (pure, neutral, mixed; every line distinct so that multiplicity is observable) x explicit version {None,gfa1,gfa2} x dialect {standard,rgfa} x entry point {Gfa(list), Gfa(str), from_file} x vlevel; ALL permutations for documents of <=6 (quick) / <=7 (thorough) lines; expected version / VersionError from the independent line classifier; each input line must appear exactly once; non-trivial = document with a version-ambiguous line arriving before the deciding line 20% line-by-line scenarios: refused lines which hint at a version among neutral lines, then content of either version: the version follows from the accepted lines alone. Documents with a VN header naming a version which does not exist (1.1, 2.1, gfa1, ...): refused in every order. After a refused header VN the version must not be the refused one.",
@@ -109,7 +109,7 @@ meta("C19",
 meta("C20",
      rule="Python values of every supported kind (int, finite float, str, char, JSON list/dict, integer/float array, byte array) on and next to subtype/grammar boundaries, and values the datatype cannot represent (tab/newline/non-printable strings, non-finite floats, mixed/out-of-range/empty arrays, bytes > 255, JSON with non-printables), assigned by set() / attribute / after set_datatype on S, L, E, H lines at vlevel 0-3; checked: default datatype, validate_field, written tag vs the datatype grammar, smallest array subtype, read back through gfapy.Line(str(line)) equal with the same datatype; unrepresentable values must fail validation and not be written unflagged at level >= 2; distinct = (kind, value, way, level, carrier) 12% any-class cells (a Python value of any class offered to each declared datatype: never a foreign exception, never malformed text after passing validation); 25% of the good cases assign on a line whose clone got a value of another class under the same tag first; float arrays draw |x| >= 1e16. 30%: carriers of every record type (S L C P E F G O U custom) connected to a Gfa, then rename / further group line / re-add / re-parse before the read-back; 20%: the tag existed before with a value of another class and was removed (None or delete). Empty byte/numeric arrays among the unrepresentable values; at level 3 a refused first assignment of a new tag followed by a valid value of another class.",
      budget={"quick": 20, "thorough": 300},
-     min_counts={"quick": {"connected_read_backs": 20000, "refused_then_assigned": 2000, "first_reads": 10000, "removed_then_assigned": 10000, "anyclass_assignments": 10000, "sibling_assignments": 10000, "assignments": 30000, "read_backs": 10000, "bad_values_validated": 2000, "kinds": 14}},
+     min_counts={"quick": {"connected_read_backs": 20000, "refused_then_assigned": 2000, "multi_valued_header_tags": 2000, "first_reads": 10000, "removed_then_assigned": 10000, "anyclass_assignments": 10000, "sibling_assignments": 10000, "assignments": 30000, "read_backs": 10000, "bad_values_validated": 2000, "kinds": 14}},
      set_samples=["kinds"])
 
 meta("C11",
@@ -131,7 +131,7 @@ meta("C18",
 meta("C14",
      rule="GFA1 (70%) and GFA2 graphs of 2-8 segments with M/=-only or '*' overlaps: backbone chains of 2-5 segments in every mix of orientations, rings, plus branches, self-links, hairpins on chain ends and inside, chains sharing junctions, with and without sequences; linear_paths() is compared with the independent chain finder (modulo reversal / ring rotation); after merge_linear_paths(): spelled sequence (orientation taken from the path gfapy reported), length, exact multiset of outward dovetails re-attached to the right ends, untouched segments, component partition, closed/symmetric object graph, idempotence; non-trivial = a chain of >=3 segments with mixed exit ends 30% of the merges use enable_tracking=True (the '^' marks in merged names are stripped before comparison). Graphs built at validation levels 0-3. gfapy's own component answers after every merge; one path turned round (in place and through reversed()) and merged on its own.",
      budget={"quick": 20, "thorough": 300},
-     min_counts={"quick": {"merges_at_level_3": 1500, "component_answers_after_merge": 5000, "single_paths_reversed_then_merged": 250, "linear_path_calls": 5000, "merges_at_level_0": 1500, "merges_with_enable_tracking": 1000, "linear_paths_calls": 8000, "merges": 5000, "invariant_evaluations": 3000}},
+     min_counts={"quick": {"merges_at_level_3": 1500, "component_answers_after_merge": 5000, "single_paths_reversed_then_merged": 250, "paths_given_as_strings_or_pairs": 200, "linear_path_calls": 5000, "merges_at_level_0": 1500, "merges_with_enable_tracking": 1000, "linear_paths_calls": 8000, "merges": 5000, "invariant_evaluations": 3000}},
      set_samples=["features", "chain_lengths"])
 
 meta("C15",
